@@ -5,14 +5,1241 @@ schedule (`Reachable` = reflexive-transitive closure of "some thread takes one s
 -/
 namespace Ebu.Conc
 
+namespace Inv
+
+/-- every way the dispatch loop of one activation can arrive at its next yield point.
+`PF`, `PC`, `PG` say which registration (and which remainder of the snapshot) the loop may stop at:
+in a filter, at a once claim, and at a dispatch (`spawn`/`lock`/`enter`) respectively -/
+inductive Shape (sh : Shared) (th : Thread) (f : Frame) (fs : List Frame)
+    (PF PC PG : Reg → List Reg → Prop) : Out → Prop
+  | ret (obs : List Obs) (hc : f.claimed = []) :
+      Shape sh th f fs PF PC PG ⟨sh, { th with frames := fs, pc := .op }, [], obs⟩
+  | retire (obs : List Obs) (hc : f.claimed ≠ []) :
+      Shape sh th f fs PF PC PG ⟨sh, { th with frames := { f with rest := [] } :: fs, pc := .retire }, [], obs⟩
+  | filter (obs : List Obs) (r : Reg) (rest' : List Reg) (hp : PF r rest') (hf : r.filt.isSome = true) :
+      Shape sh th f fs PF PC PG ⟨sh, { th with frames := { f with rest := rest' } :: fs, pc := .filter r }, [], obs⟩
+  | claimed (obs : List Obs) (r : Reg) (rest' : List Reg) (hp : PC r rest') (ho : r.once = true)
+      (hne : r.rid ∉ sh.executed) (hl : sh.live f.ctx = true) :
+      Shape sh th f fs PF PC PG
+        ⟨{ sh with executed := r.rid :: sh.executed },
+         { th with frames := { f with rest := rest', claimed := f.claimed ++ [r.rid] } :: fs, pc := .claimed r }, [], obs⟩
+  | spawn (obs : List Obs) (r : Reg) (rest' : List Reg) (hp : PG r rest') (ha : r.async = true) :
+      Shape sh th f fs PF PC PG
+        ⟨{ sh with inflight := sh.inflight + 1, nextSpawn := sh.nextSpawn + 1,
+                   tickets := if r.seq then setKV sh.tickets r.rid (lookupD sh.tickets r.rid + 1) else sh.tickets,
+                   issued := if r.seq then sh.issued ++ [(r.rid, lookupD sh.tickets r.rid)] else sh.issued },
+         { th with frames := { f with rest := rest' } :: fs, pc := .spawn r sh.nextSpawn (lookupD sh.tickets r.rid) }, [], obs⟩
+  | lock (obs : List Obs) (r : Reg) (rest' : List Reg) (hp : PG r rest') (ha : r.async = false) (hs : r.seq = true)
+      (hl : sh.live f.ctx = true) :
+      Shape sh th f fs PF PC PG ⟨sh, { th with frames := { f with rest := rest' } :: fs, pc := .lock r false }, [], obs⟩
+  | enter (obs : List Obs) (r : Reg) (rest' : List Reg) (hp : PG r rest') (ha : r.async = false) (hs : r.seq = false)
+      (hl : sh.live f.ctx = true) :
+      Shape sh th f fs PF PC PG
+        ⟨sh.noteEnter r, { th with frames := { f with rest := rest', handler := some r, body := r.body } :: fs, pc := .enter r }, [], obs⟩
+
+theorem Shape.mono {sh th f fs PF PC PG PF' PC' PG' o} (h : Shape sh th f fs PF PC PG o)
+    (hF : ∀ r l, PF r l → PF' r l) (hC : ∀ r l, PC r l → PC' r l) (hG : ∀ r l, PG r l → PG' r l) :
+    Shape sh th f fs PF' PC' PG' o := by
+  cases h with
+  | ret obs hc => exact .ret obs hc
+  | retire obs hc => exact .retire obs hc
+  | filter obs r rest' hp hf => exact .filter obs r rest' (hF _ _ hp) hf
+  | claimed obs r rest' hp ho hne hl => exact .claimed obs r rest' (hC _ _ hp) ho hne hl
+  | spawn obs r rest' hp ha => exact .spawn obs r rest' (hG _ _ hp) ha
+  | lock obs r rest' hp ha hs hl => exact .lock obs r rest' (hG _ _ hp) ha hs hl
+  | enter obs r rest' hp ha hs hl => exact .enter obs r rest' (hG _ _ hp) ha hs hl
+
+/-- the loop only looks at `rest` of the activation: shapes transfer from `{ f with rest := l }` to `f` -/
+theorem Shape.reframe {sh th f fs l PF PC PG o} (h : Shape sh th { f with rest := l } fs PF PC PG o) :
+    Shape sh th f fs PF PC PG o := by
+  cases h with
+  | ret obs hc => exact .ret obs hc
+  | retire obs hc => exact .retire obs hc
+  | filter obs r rest' hp hf => exact .filter obs r rest' hp hf
+  | claimed obs r rest' hp ho hne hl => exact .claimed obs r rest' hp ho hne hl
+  | spawn obs r rest' hp ha => exact .spawn obs r rest' hp ha
+  | lock obs r rest' hp ha hs hl => exact .lock obs r rest' hp ha hs hl
+  | enter obs r rest' hp ha hs hl => exact .enter obs r rest' hp ha hs hl
+
+def Suf (l : List Reg) (r : Reg) (rest' : List Reg) : Prop := r :: rest' <:+ l
+
+theorem shape_all (fuel : Nat) : ∀ (sh : Shared) (th : Thread) (f : Frame) (fs : List Frame) (obs : List Obs),
+    (3 * f.rest.length + 1 ≤ fuel →
+      Shape sh th f fs (Suf f.rest) (Suf f.rest) (fun r l => Suf f.rest r l ∧ r.once = false)
+        (dispatch sh th f fs obs fuel)) ∧
+    (∀ r0, 3 * f.rest.length + 3 ≤ fuel →
+      Shape sh th f fs (Suf f.rest) (fun r l => (r = r0 ∧ l = f.rest) ∨ Suf f.rest r l)
+        (fun r l => ((r = r0 ∧ l = f.rest) ∨ Suf f.rest r l) ∧ r.once = false)
+        (afterFilter sh th f fs r0 obs fuel)) ∧
+    (∀ r0, 3 * f.rest.length + 2 ≤ fuel →
+      Shape sh th f fs (Suf f.rest) (Suf f.rest)
+        (fun r l => (r = r0 ∧ l = f.rest) ∨ (Suf f.rest r l ∧ r.once = false))
+        (afterClaim sh th f fs r0 obs fuel)) := by
+  induction fuel with
+  | zero =>
+    intro sh th f fs obs
+    refine ⟨fun h => by omega, fun _ h => by omega, fun _ h => by omega⟩
+  | succ fuel ih =>
+    intro sh th f fs obs
+    refine ⟨?_, ?_, ?_⟩
+    · intro hfuel
+      unfold dispatch
+      split
+      · rename_i hrest
+        split
+        · rename_i hc
+          exact .ret _ (by simpa using hc)
+        · rename_i hc
+          have : f = { f with rest := [] } := by cases f; simp_all
+          rw [this]
+          exact .retire _ (by simpa using hc)
+      · rename_i r rest hrest
+        have hsuf : ∀ r' l, Suf rest r' l → Suf f.rest r' l := by
+          intro r' l h; rw [hrest]; exact List.IsSuffix.trans h (List.suffix_cons _ _)
+        split
+        · exact .filter _ r rest (by simp [Suf, hrest]) (by simp_all)
+        · have h2 := ((ih sh th { f with rest := rest } fs obs).2.1 r (by simp [hrest] at hfuel ⊢; omega))
+          refine (Shape.reframe h2).mono ?_ ?_ ?_
+          · exact hsuf
+          · rintro r' l (⟨rfl, rfl⟩ | h)
+            · simp [Suf, hrest]
+            · exact hsuf _ _ h
+          · rintro r' l ⟨(⟨rfl, rfl⟩ | h), ho⟩
+            · exact ⟨by simp [Suf, hrest], ho⟩
+            · exact ⟨hsuf _ _ h, ho⟩
+    · intro r0 hfuel
+      unfold afterFilter
+      split
+      · exact ((ih sh th f fs obs).1 (by omega)).mono (fun _ _ h => h) (fun _ _ h => .inr h) (fun _ _ h => ⟨.inr h.1, h.2⟩)
+      · split
+        · split
+          · exact ((ih sh th f fs obs).1 (by omega)).mono (fun _ _ h => h) (fun _ _ h => .inr h) (fun _ _ h => ⟨.inr h.1, h.2⟩)
+          · rename_i hl ho hex
+            exact .claimed obs r0 f.rest (.inl ⟨rfl, rfl⟩) ho (by simpa using hex) (by simpa using hl)
+        · rename_i hl ho
+          exact ((ih sh th f fs obs).2.2 r0 (by omega)).mono (fun _ _ h => h) (fun _ _ h => .inr h)
+            (fun r l h => by
+              rcases h with ⟨rfl, rfl⟩ | ⟨h, ho'⟩
+              · exact ⟨.inl ⟨rfl, rfl⟩, by simpa using ho⟩
+              · exact ⟨.inr h, ho'⟩)
+    · intro r0 hfuel
+      unfold afterClaim
+      split
+      · rename_i ha
+        exact .spawn obs r0 f.rest (.inl ⟨rfl, rfl⟩) ha
+      · rename_i ha
+        split
+        · exact ((ih sh th f fs obs).1 (by omega)).mono (fun _ _ h => h) (fun _ _ h => h) (fun _ _ h => .inr h)
+        · rename_i hl
+          split
+          · rename_i hs
+            exact .lock obs r0 f.rest (.inl ⟨rfl, rfl⟩) (by simpa using ha) hs (by simpa using hl)
+          · rename_i hs
+            exact .enter _ r0 f.rest (.inl ⟨rfl, rfl⟩) (by simpa using ha) (by simpa using hs) (by simpa using hl)
+
+
+/-- the loop started at `dispatch` -/
+abbrev DShape (sh : Shared) (th : Thread) (f : Frame) (fs : List Frame) : Out → Prop :=
+  Shape sh th f fs (Suf f.rest) (Suf f.rest) (fun r l => Suf f.rest r l ∧ r.once = false)
+
+/-- the loop started at `afterFilter r0` -/
+abbrev FShape (sh : Shared) (th : Thread) (f : Frame) (fs : List Frame) (r0 : Reg) : Out → Prop :=
+  Shape sh th f fs (Suf f.rest) (fun r l => (r = r0 ∧ l = f.rest) ∨ Suf f.rest r l)
+    (fun r l => ((r = r0 ∧ l = f.rest) ∨ Suf f.rest r l) ∧ r.once = false)
+
+/-- the loop started at `afterClaim r0` -/
+abbrev CShape (sh : Shared) (th : Thread) (f : Frame) (fs : List Frame) (r0 : Reg) : Out → Prop :=
+  Shape sh th f fs (Suf f.rest) (Suf f.rest) (fun r l => (r = r0 ∧ l = f.rest) ∨ (Suf f.rest r l ∧ r.once = false))
+
+theorem dispatch_shape (sh th f fs obs) (g : Frame) (hg : g.rest = f.rest) :
+    DShape sh th f fs (dispatch sh th f fs obs (fuelFor g)) :=
+  (shape_all _ sh th f fs obs).1 (by simp only [fuelFor, hg]; omega)
+
+theorem afterFilter_shape (sh th f fs obs r0) :
+    FShape sh th f fs r0 (afterFilter sh th f fs r0 obs (fuelFor f)) :=
+  (shape_all _ sh th f fs obs).2.1 r0 (by simp only [fuelFor]; omega)
+
+theorem afterClaim_shape (sh th f fs obs r0) :
+    CShape sh th f fs r0 (afterClaim sh th f fs r0 obs (fuelFor f)) :=
+  (shape_all _ sh th f fs obs).2.2 r0 (by simp only [fuelFor]; omega)
+
+/-- `step` as a relation: one constructor per way a thread can move -/
+inductive StepR (sh : Shared) (th : Thread) : Out → Prop
+  | bodyPub (f : Frame) (fs : List Frame) (ty v : Nat) (more : List (Nat × Nat))
+      (hpc : th.pc = .op) (hfr : th.frames = f :: fs) (hb : f.body = (ty, v) :: more) :
+      StepR sh th ⟨sh, { th with frames := newFrame sh ty v .bg :: { f with body := more } :: fs, pc := .snap }, [], []⟩
+  | bodyEnd (f : Frame) (fs : List Frame) (r : Reg)
+      (hpc : th.pc = .op) (hfr : th.frames = f :: fs) (hb : f.body = []) (hh : f.handler = some r) :
+      StepR sh th ⟨sh, { th with pc := .exit r }, [], [.exit r.rid]⟩
+  | fin (hpc : th.pc = .op) (hfr : th.frames = []) (hp : th.prog = []) :
+      StepR sh th ⟨sh, { th with pc := .done }, [], [.fin]⟩
+  | subscribe (ty hid : Nat) (once async seq : Bool) (filt : Option (Nat × Nat)) (body : List (Nat × Nat)) (prog : List Op)
+      (hpc : th.pc = .op) (hfr : th.frames = []) (hp : th.prog = .subscribe ty hid once async seq filt body :: prog) :
+      StepR sh th ⟨{ sh with regs := sh.regs ++ [⟨sh.nextRid, ty, hid, once, async, seq, filt, body⟩], nextRid := sh.nextRid + 1 },
+        { th with prog := prog }, [], [.ret]⟩
+  | unsubscribe (ty hid : Nat) (prog : List Op)
+      (hpc : th.pc = .op) (hfr : th.frames = []) (hp : th.prog = .unsubscribe ty hid :: prog) :
+      StepR sh th ⟨{ sh with regs := eraseFirst (fun r => r.ty == ty && r.hid == hid) sh.regs,
+                             removed := sh.removed + (sh.regs.length - (eraseFirst (fun r => r.ty == ty && r.hid == hid) sh.regs).length) },
+        { th with prog := prog }, [], [.unsub ty hid (sh.regs.any (fun r => r.ty == ty && r.hid == hid)), .ret]⟩
+  | clear (ty : Nat) (prog : List Op)
+      (hpc : th.pc = .op) (hfr : th.frames = []) (hp : th.prog = .clear ty :: prog) :
+      StepR sh th ⟨{ sh with regs := sh.regs.filter (fun r => r.ty != ty),
+                             removed := sh.removed + (sh.regs.length - (sh.regs.filter (fun r => r.ty != ty)).length) },
+        { th with prog := prog }, [], [.ret]⟩
+  | cancel (k : Nat) (prog : List Op)
+      (hpc : th.pc = .op) (hfr : th.frames = []) (hp : th.prog = .cancel k :: prog) :
+      StepR sh th ⟨{ sh with cancelled := k :: sh.cancelled }, { th with prog := prog }, [], [.ret]⟩
+  | count (ty : Nat) (prog : List Op)
+      (hpc : th.pc = .op) (hfr : th.frames = []) (hp : th.prog = .count ty :: prog) :
+      StepR sh th ⟨sh, { th with prog := prog }, [], [.count ty (sh.regs.filter (fun r => r.ty == ty)).length, .ret]⟩
+  | wait (prog : List Op)
+      (hpc : th.pc = .op) (hfr : th.frames = []) (hp : th.prog = .wait :: prog) (hidle : sh.inflight = 0) :
+      StepR sh th ⟨sh, { th with prog := prog }, [], [.ret]⟩
+  | publish (ty v : Nat) (ctx : Ctx) (prog : List Op)
+      (hpc : th.pc = .op) (hfr : th.frames = []) (hp : th.prog = .publish ty v ctx :: prog) :
+      StepR sh th ⟨sh, { th with prog := prog, frames := [newFrame sh ty v ctx], pc := .snap }, [], []⟩
+  | snap (f : Frame) (fs : List Frame) (o : Out) (hpc : th.pc = .snap) (hfr : th.frames = f :: fs)
+      (hsh : DShape sh th f fs o) : StepR sh th o
+  | filterAcc (r : Reg) (f : Frame) (fs : List Frame) (o : Out) (hpc : th.pc = .filter r) (hfr : th.frames = f :: fs)
+      (hacc : r.accepts f.v = true) (hsh : FShape sh th f fs r o) : StepR sh th o
+  | filterRej (r : Reg) (f : Frame) (fs : List Frame) (o : Out) (hpc : th.pc = .filter r) (hfr : th.frames = f :: fs)
+      (hrej : r.accepts f.v = false) (hsh : DShape sh th f fs o) : StepR sh th o
+  | claimed (r : Reg) (f : Frame) (fs : List Frame) (o : Out) (hpc : th.pc = .claimed r) (hfr : th.frames = f :: fs)
+      (hsh : CShape sh th f fs r o) : StepR sh th o
+  | spawn (r : Reg) (n t : Nat) (f : Frame) (fs : List Frame) (o : Out) (hpc : th.pc = .spawn r n t) (hfr : th.frames = f :: fs)
+      (hsh : DShape sh th f fs o) :
+      StepR sh th { o with new := [{ pc := .astart, job := some ⟨r, f.ty, f.v, f.ctx, t, n⟩ }] }
+  | lock (r : Reg) (a : Bool) (f : Frame) (fs : List Frame) (hpc : th.pc = .lock r a) (hfr : th.frames = f :: fs)
+      (hfree : r.rid ∉ sh.held) :
+      StepR sh th ⟨{ sh.noteEnter r with held := r.rid :: sh.held },
+        { th with frames := { f with handler := some r, body := r.body } :: fs, pc := .enter r }, [], [.enter r.rid f.ty f.v a]⟩
+  | enterPub (r : Reg) (f : Frame) (fs : List Frame) (ty v : Nat) (more : List (Nat × Nat))
+      (hpc : th.pc = .enter r) (hfr : th.frames = f :: fs) (hb : f.body = (ty, v) :: more) :
+      StepR sh th ⟨sh, { th with frames := newFrame sh ty v .bg :: { f with body := more } :: fs, pc := .snap }, [], []⟩
+  | enterEnd (r : Reg) (f : Frame) (fs : List Frame)
+      (hpc : th.pc = .enter r) (hfr : th.frames = f :: fs) (hb : f.body = []) :
+      StepR sh th ⟨sh, { th with pc := .exit r }, [], [.exit r.rid]⟩
+  | exitJob (r : Reg) (j : Job) (f : Frame) (hpc : th.pc = .exit r) (hj : th.job = some j) (hfr : th.frames = [f]) :
+      StepR sh th
+        ⟨{ sh with held := if r.seq then sh.held.erase r.rid else sh.held,
+                   serving := if j.reg.seq then setKV sh.serving j.reg.rid (lookupD sh.serving j.reg.rid + 1) else sh.serving },
+         { th with frames := [], pc := .aend }, [], []⟩
+  | exit (r : Reg) (f : Frame) (fs : List Frame) (o : Out) (hpc : th.pc = .exit r) (hfr : th.frames = f :: fs)
+      (hj : th.job = none ∨ fs ≠ [])
+      (hsh : DShape { sh with held := if r.seq then sh.held.erase r.rid else sh.held } th { f with handler := none, body := [] } fs o) :
+      StepR sh th o
+  | retire (f : Frame) (fs : List Frame) (hpc : th.pc = .retire) (hfr : th.frames = f :: fs) :
+      StepR sh th
+        ⟨{ sh with regs := f.claimed.foldl (fun regs c => eraseFirst (fun h => h.rid == c) regs) sh.regs,
+                   removed := sh.removed + (sh.regs.length - (f.claimed.foldl (fun regs c => eraseFirst (fun h => h.rid == c) regs) sh.regs).length) },
+         { th with frames := { f with claimed := [] } :: fs, pc := .retired }, [], []⟩
+  | retired (f : Frame) (fs : List Frame) (hpc : th.pc = .retired) (hfr : th.frames = f :: fs) :
+      StepR sh th ⟨sh, { th with frames := fs, pc := .op }, [], [.ret]⟩
+  | astartSeq (j : Job) (hpc : th.pc = .astart) (hj : th.job = some j) (hs : j.reg.seq = true) :
+      StepR sh th ⟨sh, { th with pc := .turn }, [], []⟩
+  | astartDead (j : Job) (hpc : th.pc = .astart) (hj : th.job = some j) (hs : j.reg.seq = false) (hl : sh.live j.ctx = false) :
+      StepR sh th ⟨sh, { th with pc := .aend }, [], []⟩
+  | astartRun (j : Job) (hpc : th.pc = .astart) (hj : th.job = some j) (hs : j.reg.seq = false) (hl : sh.live j.ctx = true) :
+      StepR sh th ⟨sh.noteEnter j.reg, { th with frames := [jobFrame j true], pc := .enter j.reg }, [], [.enter j.reg.rid j.ty j.v true]⟩
+  | turnDead (j : Job) (hpc : th.pc = .turn) (hj : th.job = some j) (hturn : lookupD sh.serving j.reg.rid = j.ticket)
+      (hl : sh.live j.ctx = false) :
+      StepR sh th
+        ⟨{ sh with turns := sh.turns ++ [(j.reg.rid, j.ticket)],
+                   serving := setKV sh.serving j.reg.rid (lookupD sh.serving j.reg.rid + 1) }, { th with pc := .aend }, [], []⟩
+  | turnRun (j : Job) (hpc : th.pc = .turn) (hj : th.job = some j) (hturn : lookupD sh.serving j.reg.rid = j.ticket)
+      (hl : sh.live j.ctx = true) :
+      StepR sh th ⟨{ sh with turns := sh.turns ++ [(j.reg.rid, j.ticket)] },
+        { th with frames := [jobFrame j false], pc := .lock j.reg true }, [], []⟩
+  | aend (hpc : th.pc = .aend) : StepR sh th ⟨{ sh with inflight := sh.inflight - 1 }, { th with pc := .done }, [], [.fin]⟩
+
+theorem Shape.new_nil {sh th f fs PF PC PG o} (h : Shape sh th f fs PF PC PG o) : o.new = [] := by
+  cases h <;> rfl
+
+theorem stepR_of_step {sh : Shared} {th : Thread} {o : Out} (h : step sh th = some o) : StepR sh th o := by
+  unfold step at h
+  split at h
+  · cases h
+  rename_i hen
+  split at h
+  · cases h
+  · -- op
+    rename_i hpc
+    split at h
+    · rename_i f fs hfr
+      split at h
+      · rename_i hb; cases h; exact .bodyPub _ _ _ _ _ hpc hfr (by simp_all)
+      · cases h; exact .bodyEnd _ _ _ hpc hfr (by simp_all) (by simp_all)
+      · cases h
+    · rename_i hfr
+      split at h
+      · rename_i hp; cases h; exact .fin hpc hfr hp
+      · rename_i op prog hp
+        split at h
+        · cases h; exact .subscribe _ _ _ _ _ _ _ _ hpc hfr hp
+        · cases h; exact .unsubscribe _ _ _ hpc hfr hp
+        · cases h; exact .clear _ _ hpc hfr hp
+        · cases h; exact .cancel _ _ hpc hfr hp
+        · cases h; exact .count _ _ hpc hfr hp
+        · cases h; exact .wait _ hpc hfr hp (by simpa [enabled, hpc, hfr, hp] using hen)
+        · cases h; exact .publish _ _ _ _ hpc hfr hp
+  · -- snap
+    rename_i hpc
+    split at h
+    · rename_i f fs hfr; cases h; exact .snap f fs _ hpc hfr (dispatch_shape _ _ _ _ _ f rfl)
+    · cases h
+  · -- filter
+    rename_i r hpc
+    split at h
+    · rename_i f fs hfr
+      split at h
+      · rename_i hacc; cases h; exact .filterAcc r f fs _ hpc hfr hacc (afterFilter_shape _ _ _ _ _ _)
+      · rename_i hacc; cases h; exact .filterRej r f fs _ hpc hfr (by simpa using hacc) (dispatch_shape _ _ _ _ _ f rfl)
+    · cases h
+  · -- claimed
+    rename_i r hpc
+    split at h
+    · rename_i f fs hfr; cases h; exact .claimed r f fs _ hpc hfr (afterClaim_shape _ _ _ _ _ _)
+    · cases h
+  · -- spawn
+    rename_i r n t hpc
+    split at h
+    · rename_i f fs hfr
+      cases h
+      have hs := dispatch_shape sh th f fs [.spawned n] f rfl
+      have := StepR.spawn r n t f fs _ hpc hfr hs
+      simpa [hs.new_nil] using this
+    · cases h
+  · -- lock
+    rename_i r a hpc
+    split at h
+    · rename_i f fs hfr; cases h
+      exact .lock r a f fs hpc hfr (by simpa [enabled, hpc] using hen)
+    · cases h
+  · -- enter
+    rename_i r hpc
+    split at h
+    · rename_i f fs hfr
+      split at h
+      · rename_i hb; cases h; exact .enterPub r f fs _ _ _ hpc hfr hb
+      · rename_i hb; cases h; exact .enterEnd r f fs hpc hfr hb
+    · cases h
+  · -- exit
+    rename_i r hpc
+    have key : ∀ sh1 : Shared, sh1 = { sh with held := if r.seq then sh.held.erase r.rid else sh.held } →
+        (match th.job, th.frames with
+          | some j, [_] =>
+            some (⟨if j.reg.seq then { sh1 with serving := setKV sh1.serving j.reg.rid (lookupD sh1.serving j.reg.rid + 1) } else sh1,
+              { th with frames := [], pc := .aend }, [], []⟩ : Out)
+          | _, f :: fs => some (dispatch sh1 th { f with handler := none, body := [] } fs [] (fuelFor f))
+          | _, [] => none) = some o → StepR sh th o := by
+      intro sh1 hsh1 h
+      subst hsh1
+      split at h
+      · rename_i j f hj hfr; cases h
+        have := StepR.exitJob (sh := sh) r j f hpc hj hfr
+        by_cases hjs : j.reg.seq = true <;> simpa [hjs] using this
+      · rename_i f fs hfr hne; cases h
+        refine .exit r f fs _ hpc hfr ?_ (dispatch_shape _ _ _ _ _ f rfl)
+        cases hj : th.job with
+        | none => exact .inl rfl
+        | some j => exact .inr (fun h => hne j hj h)
+      · cases h
+    split at h
+    · rename_i hs; exact key _ (by simp [hs]) h
+    · rename_i hs; exact key _ (by cases sh; simp [hs]) h
+  · -- retire
+    rename_i hpc
+    split at h
+    · rename_i f fs hfr; cases h; exact .retire f fs hpc hfr
+    · cases h
+  · -- retired
+    rename_i hpc
+    split at h
+    · rename_i f fs hfr; cases h; exact .retired f fs hpc hfr
+    · cases h
+  · -- astart
+    rename_i hpc
+    split at h
+    · rename_i j hj
+      split at h
+      · rename_i hs; cases h; exact .astartSeq j hpc hj hs
+      · rename_i hs
+        split at h
+        · rename_i hl; cases h; exact .astartDead j hpc hj (by simpa using hs) (by simpa using hl)
+        · rename_i hl; cases h; exact .astartRun j hpc hj (by simpa using hs) (by simpa using hl)
+    · cases h
+  · -- turn
+    rename_i hpc
+    split at h
+    · rename_i j hj
+      have hturn : lookupD sh.serving j.reg.rid = j.ticket := by simpa [enabled, hpc, hj] using hen
+      dsimp only at h
+      split at h
+      · rename_i hl; cases h; exact .turnDead j hpc hj hturn (by simpa [Shared.live] using hl)
+      · rename_i hl; cases h; exact .turnRun j hpc hj hturn (by simpa [Shared.live] using hl)
+    · cases h
+  · -- aend
+    rename_i hpc
+    cases h; exact .aend hpc
+
+
+theorem stepAt_cases {s s' : Sys} {i : Nat} (h : s.stepAt i = some s') :
+    ∃ th o, s.ths[i]? = some th ∧ StepR s.sh th o ∧ s' = { sh := o.sh, ths := s.ths.set i o.th ++ o.new } := by
+  unfold Sys.stepAt at h
+  split at h
+  · cases h
+  · rename_i th hth
+    split at h
+    · cases h
+    · rename_i o ho
+      cases h
+      exact ⟨th, o, hth, stepR_of_step ho, rfl⟩
+
+/-- induction over the reachable states, with `step` presented as the relation `StepR` -/
+theorem reach_ind {progs : List (List Op)} {P : Sys → Prop} (h0 : P (initSys progs))
+    (hs : ∀ (s : Sys) (i : Nat) (th : Thread) (o : Out), Reachable progs s → P s → s.ths[i]? = some th → StepR s.sh th o →
+      P { sh := o.sh, ths := s.ths.set i o.th ++ o.new }) :
+    ∀ s, Reachable progs s → P s := by
+  intro s h
+  induction h with
+  | init => exact h0
+  | step hr hst ih =>
+    obtain ⟨th, o, hth, hR, rfl⟩ := stepAt_cases hst
+    exact hs _ _ _ _ hr ih hth hR
+
+
+/-! #### projections of `noteEnter` -/
+section
+variable (s : Shared) (r : Reg)
+@[simp] theorem noteEnter_regs : (s.noteEnter r).regs = s.regs := by unfold Shared.noteEnter; split <;> rfl
+@[simp] theorem noteEnter_nextRid : (s.noteEnter r).nextRid = s.nextRid := by unfold Shared.noteEnter; split <;> rfl
+@[simp] theorem noteEnter_executed : (s.noteEnter r).executed = s.executed := by unfold Shared.noteEnter; split <;> rfl
+@[simp] theorem noteEnter_cancelled : (s.noteEnter r).cancelled = s.cancelled := by unfold Shared.noteEnter; split <;> rfl
+@[simp] theorem noteEnter_inflight : (s.noteEnter r).inflight = s.inflight := by unfold Shared.noteEnter; split <;> rfl
+@[simp] theorem noteEnter_held : (s.noteEnter r).held = s.held := by unfold Shared.noteEnter; split <;> rfl
+@[simp] theorem noteEnter_tickets : (s.noteEnter r).tickets = s.tickets := by unfold Shared.noteEnter; split <;> rfl
+@[simp] theorem noteEnter_serving : (s.noteEnter r).serving = s.serving := by unfold Shared.noteEnter; split <;> rfl
+@[simp] theorem noteEnter_nextSpawn : (s.noteEnter r).nextSpawn = s.nextSpawn := by unfold Shared.noteEnter; split <;> rfl
+@[simp] theorem noteEnter_removed : (s.noteEnter r).removed = s.removed := by unfold Shared.noteEnter; split <;> rfl
+@[simp] theorem noteEnter_issued : (s.noteEnter r).issued = s.issued := by unfold Shared.noteEnter; split <;> rfl
+@[simp] theorem noteEnter_turns : (s.noteEnter r).turns = s.turns := by unfold Shared.noteEnter; split <;> rfl
+theorem noteEnter_enteredOnce :
+    (s.noteEnter r).enteredOnce = if r.once then r.rid :: s.enteredOnce else s.enteredOnce := by
+  unfold Shared.noteEnter; split <;> rfl
+end
+
+/-! #### C02: the registry -/
+
+theorem eraseFirst_sublist (p : Reg → Bool) (l : List Reg) : (eraseFirst p l).Sublist l := by
+  induction l with
+  | nil => exact .slnil
+  | cons r rs ih =>
+    unfold eraseFirst
+    split
+    · exact List.sublist_cons_self _ _
+    · exact ih.cons_cons _
+
+theorem retire_sublist (cl : List Nat) (l : List Reg) :
+    (cl.foldl (fun regs c => eraseFirst (fun h => h.rid == c) regs) l).Sublist l := by
+  induction cl generalizing l with
+  | nil => exact List.Sublist.refl _
+  | cons c cl ih => exact (ih _).trans (eraseFirst_sublist _ _)
+
+/-- how one step can change the registry -/
+inductive RegStep (sh sh' : Shared) : Prop
+  | same (h1 : sh'.regs = sh.regs) (h2 : sh'.removed = sh.removed) (h3 : sh'.nextRid = sh.nextRid)
+  | add (r : Reg) (h1 : sh'.regs = sh.regs ++ [r]) (hr : r.rid = sh.nextRid) (h2 : sh'.removed = sh.removed)
+      (h3 : sh'.nextRid = sh.nextRid + 1)
+  | del (h1 : sh'.regs.Sublist sh.regs) (h2 : sh'.removed = sh.removed + (sh.regs.length - sh'.regs.length))
+      (h3 : sh'.nextRid = sh.nextRid)
+
+theorem Shape.regStep {sh th f fs PF PC PG o} (h : Shape sh th f fs PF PC PG o) : RegStep sh o.sh := by
+  cases h <;> exact .same (by simp) (by simp) (by simp)
+
+theorem StepR.regStep {sh th o} (h : StepR sh th o) : RegStep sh o.sh := by
+  cases h
+  case subscribe => exact .add _ rfl rfl rfl rfl
+  case unsubscribe => exact .del (eraseFirst_sublist _ _) rfl rfl
+  case clear => exact .del List.filter_sublist rfl rfl
+  case retire => exact .del (retire_sublist _ _) rfl rfl
+  case snap hsh => exact hsh.regStep
+  case filterAcc hsh => exact hsh.regStep
+  case filterRej hsh => exact hsh.regStep
+  case claimed hsh => exact hsh.regStep
+  case spawn hsh => exact hsh.regStep
+  case exit hsh => cases hsh.regStep with | same h1 h2 h3 => exact .same h1 h2 h3 | add r h1 hr h2 h3 => exact .add r h1 hr h2 h3 | del h1 h2 h3 => exact .del h1 h2 h3
+  all_goals exact .same (by simp) (by simp) (by simp)
+
+def RegInv (sh : Shared) : Prop :=
+  sh.regs.length + sh.removed = sh.nextRid ∧ (sh.regs.map (·.rid)).Nodup ∧ ∀ r ∈ sh.regs, r.rid < sh.nextRid
+
+theorem RegInv.step {sh sh' : Shared} (hi : RegInv sh) (h : RegStep sh sh') : RegInv sh' := by
+  obtain ⟨ha, hn, hb⟩ := hi
+  cases h with
+  | same h1 h2 h3 => simpa [RegInv, h1, h2, h3] using ⟨ha, hn, hb⟩
+  | add r h1 hr h2 h3 =>
+    refine ⟨by simp [h1, h2, h3]; omega, ?_, ?_⟩
+    · rw [h1, List.map_append, List.nodup_append]
+      refine ⟨hn, by simp, ?_⟩
+      intro a ha' b hb' hab
+      simp at hb' ha'
+      obtain ⟨r', hr', rfl⟩ := ha'
+      have := hb r' hr'
+      omega
+    · intro r' hr'
+      rw [h1] at hr'
+      simp at hr'
+      rcases hr' with hr' | rfl
+      · have := hb r' hr'; omega
+      · omega
+  | del h1 h2 h3 =>
+    have hl := h1.length_le
+    refine ⟨by rw [h2, h3]; omega, (h1.map _).nodup hn, ?_⟩
+    intro r hr
+    rw [h3]; exact hb r (h1.subset hr)
+
+theorem regInv_reachable {progs : List (List Op)} : ∀ s, Reachable progs s → RegInv s.sh := by
+  apply reach_ind
+  · simp [RegInv, initSys]
+  · intro s i th o _ hi _ hR
+    exact hi.step hR.regStep
+
+
+/-! #### C02: activations stay within their snapshot -/
+
+/-- the weakest useful shape: the activation's `rest` only shrinks -/
+abbrev WShape (sh : Shared) (th : Thread) (f : Frame) (fs : List Frame) : Out → Prop :=
+  Shape sh th f fs (fun _ l => l <:+ f.rest) (fun _ l => l <:+ f.rest) (fun _ l => l <:+ f.rest)
+
+theorem Suf.tail {l : List Reg} {r : Reg} {l' : List Reg} (h : Suf l r l') : l' <:+ l :=
+  (List.suffix_cons _ _).trans h
+
+theorem DShape.weak {sh th f fs o} (h : DShape sh th f fs o) : WShape sh th f fs o :=
+  h.mono (fun _ _ h => h.tail) (fun _ _ h => h.tail) (fun _ _ h => h.1.tail)
+
+theorem FShape.weak {sh th f fs r0 o} (h : FShape sh th f fs r0 o) : WShape sh th f fs o :=
+  h.mono (fun _ _ h => h.tail) (fun _ _ h => by rcases h with ⟨_, rfl⟩ | h; exact List.suffix_refl _; exact h.tail)
+    (fun _ _ h => by rcases h.1 with ⟨_, rfl⟩ | h; exact List.suffix_refl _; exact h.tail)
+
+theorem CShape.weak {sh th f fs r0 o} (h : CShape sh th f fs r0 o) : WShape sh th f fs o :=
+  h.mono (fun _ _ h => h.tail) (fun _ _ h => h.tail)
+    (fun _ _ h => by rcases h with ⟨_, rfl⟩ | h; exact List.suffix_refl _; exact h.1.tail)
+
+structure FrOK (n : Nat) (f : Frame) : Prop where
+  suf : f.rest <:+ f.snapshot
+  mem : ∀ r ∈ f.snapshot, r.ty = f.ty ∧ r.rid < n
+
+theorem FrOK.mono {n m : Nat} {f : Frame} (h : FrOK n f) (hnm : n ≤ m) : FrOK m f :=
+  ⟨h.1, fun r hr => ⟨(h.2 r hr).1, Nat.lt_of_lt_of_le (h.2 r hr).2 hnm⟩⟩
+
+theorem newFrame_ok {sh : Shared} (hreg : ∀ r ∈ sh.regs, r.rid < sh.nextRid) (ty v : Nat) (ctx : Ctx) :
+    FrOK sh.nextRid (newFrame sh ty v ctx) := by
+  refine ⟨List.suffix_refl _, ?_⟩
+  intro r hr
+  simp [newFrame] at hr
+  exact ⟨hr.2, hreg r hr.1⟩
+
+theorem WShape.frames {sh th f fs o n} (h : WShape sh th f fs o) (hf : FrOK n f) (hfs : ∀ g ∈ fs, FrOK n g) :
+    (∀ g ∈ o.th.frames, FrOK n g) ∧ o.sh.nextRid = sh.nextRid := by
+  have key : ∀ f' : Frame, f'.rest <:+ f.rest → f'.snapshot = f.snapshot → f'.ty = f.ty → FrOK n f' := by
+    intro f' h1 h2 h3
+    exact ⟨h2 ▸ h1.trans hf.1, by rw [h2, h3]; exact hf.2⟩
+  cases h
+  case ret => exact ⟨hfs, rfl⟩
+  all_goals
+    refine ⟨?_, by simp⟩
+    intro g hg
+    simp only [List.mem_cons] at hg
+    rcases hg with rfl | hg
+    · apply key <;> simp [*]
+    · exact hfs g hg
+
+theorem StepR.frames {sh th o} (h : StepR sh th o) (hreg : ∀ r ∈ sh.regs, r.rid < sh.nextRid)
+    (hth : ∀ g ∈ th.frames, FrOK sh.nextRid g) :
+    (∀ g ∈ o.th.frames, FrOK sh.nextRid g) ∧ ∀ t ∈ o.new, t.frames = [] := by
+  have upd : ∀ (f f' : Frame), FrOK sh.nextRid f → f'.rest = f.rest → f'.snapshot = f.snapshot → f'.ty = f.ty →
+      FrOK sh.nextRid f' := by
+    intro f f' h h1 h2 h3
+    exact ⟨by rw [h1, h2]; exact h.1, by rw [h2, h3]; exact h.2⟩
+  cases h
+  case snap f fs hpc hfr hsh =>
+    rw [hfr] at hth
+    exact ⟨(hsh.weak.frames (hth _ (by simp)) (fun g hg => hth g (by simp [hg]))).1, by simp [hsh.new_nil]⟩
+  case filterAcc r f fs hpc hfr hacc hsh =>
+    rw [hfr] at hth
+    exact ⟨(hsh.weak.frames (hth _ (by simp)) (fun g hg => hth g (by simp [hg]))).1, by simp [hsh.new_nil]⟩
+  case filterRej r f fs hpc hfr hacc hsh =>
+    rw [hfr] at hth
+    exact ⟨(hsh.weak.frames (hth _ (by simp)) (fun g hg => hth g (by simp [hg]))).1, by simp [hsh.new_nil]⟩
+  case claimed r f fs hpc hfr hsh =>
+    rw [hfr] at hth
+    exact ⟨(hsh.weak.frames (hth _ (by simp)) (fun g hg => hth g (by simp [hg]))).1, by simp [hsh.new_nil]⟩
+  case spawn r n t f fs o hpc hfr hsh =>
+    rw [hfr] at hth
+    exact ⟨(hsh.weak.frames (hth _ (by simp)) (fun g hg => hth g (by simp [hg]))).1, by simp⟩
+  case exit r f fs hpc hfr hj hsh =>
+    rw [hfr] at hth
+    refine ⟨(hsh.weak.frames (n := sh.nextRid) (upd f _ (hth _ (by simp)) rfl rfl rfl) (fun g hg => hth g (by simp [hg]))).1,
+      by simp [hsh.new_nil]⟩
+  all_goals first
+    | exact ⟨hth, by simp⟩
+    | skip
+  all_goals
+    refine ⟨?_, by simp⟩
+    simp only [List.forall_mem_cons, List.not_mem_nil, false_imp_iff, implies_true, and_true]
+  all_goals (try and_intros)
+  all_goals first
+    | exact newFrame_ok hreg _ _ _
+    | exact upd ‹Frame› _ (hth _ (by simp [*])) rfl rfl rfl
+    | (intro g hg; exact hth g (by simp [*]))
+    | exact ⟨by simp [jobFrame], by simp [jobFrame]⟩
+
+
+theorem RegStep.nextRid_le {sh sh' : Shared} (h : RegStep sh sh') : sh.nextRid ≤ sh'.nextRid := by
+  cases h <;> omega
+
+theorem mem_step_cases {ths : List Thread} {i : Nat} {th' t : Thread} {new : List Thread}
+    (h : t ∈ ths.set i th' ++ new) : t ∈ ths ∨ t = th' ∨ t ∈ new := by
+  rcases List.mem_append.1 h with h | h
+  · rcases List.mem_or_eq_of_mem_set h with h | h
+    · exact .inl h
+    · exact .inr (.inl h)
+  · exact .inr (.inr h)
+
+theorem snap_reachable {progs : List (List Op)} :
+    ∀ s, Reachable progs s → ∀ th ∈ s.ths, ∀ f ∈ th.frames, FrOK s.sh.nextRid f := by
+  apply reach_ind
+  · intro th hth f hf
+    simp [initSys] at hth
+    obtain ⟨p, _, rfl⟩ := hth
+    simp at hf
+  · intro s i th o hr hi hth hR t ht f hf
+    have hreg := (regInv_reachable s hr).2.2
+    have hle := hR.regStep.nextRid_le
+    have hfr := hR.frames hreg (hi th (List.mem_of_getElem? hth))
+    rcases mem_step_cases ht with ht | rfl | ht
+    · exact (hi t ht f hf).mono hle
+    · exact (hfr.1 f hf).mono hle
+    · rw [hfr.2 t ht] at hf; simp at hf
+
+
+/-! #### structural facts about a single thread -/
+
+/-- what the program counter says about the rest of the thread -/
+def ThOK (th : Thread) : Prop :=
+  match th.pc with
+  | .snap | .filter _ | .claimed _ | .spawn _ _ _ | .retire | .retired =>
+      (∃ f fs, th.frames = f :: fs ∧ f.handler = none) ∧ (th.job.isSome → 2 ≤ th.frames.length)
+  | .lock r false =>
+      r.seq = true ∧ (∃ f fs, th.frames = f :: fs ∧ f.handler = none) ∧ (th.job.isSome → 2 ≤ th.frames.length)
+  | .lock r true => r.seq = true ∧ (∃ f fs, th.frames = f :: fs ∧ f.handler = none) ∧ ∃ j, th.job = some j ∧ j.reg = r
+  | .enter r | .exit r => ∃ f fs, th.frames = f :: fs ∧ f.handler = some r
+  | .op => th.job.isSome → th.frames ≠ []
+  | .astart => (∃ j, th.job = some j) ∧ th.frames = []
+  | .turn => (∃ j, th.job = some j ∧ j.reg.seq = true) ∧ th.frames = []
+  | .aend => th.job.isSome ∧ th.frames = []
+  | .done => True
+
+theorem Shape.thOK {sh th f fs PF PC PG o} (h : Shape sh th f fs PF PC PG o) (hf : f.handler = none)
+    (hlen : th.job.isSome → fs ≠ []) : ThOK o.th := by
+  have h2 : th.job.isSome → 2 ≤ (f :: fs).length := by
+    intro hj; have := hlen hj
+    cases fs with
+    | nil => simp at this
+    | cons _ _ => simp
+  cases h <;> simp_all [ThOK]
+
+theorem StepR.thOK {sh th o} (h : StepR sh th o) (hth : ThOK th) : ThOK o.th ∧ ∀ t ∈ o.new, ThOK t := by
+  have len2 : ∀ (f : Frame) (fs : List Frame), 2 ≤ (f :: fs).length → fs ≠ [] := by
+    intro f fs h; cases fs <;> simp at h ⊢
+  cases h
+  case snap f fs hpc hfr hsh =>
+    simp only [ThOK, hpc, hfr] at hth
+    obtain ⟨⟨f', fs', h1, h2⟩, h3⟩ := hth
+    cases h1
+    exact ⟨hsh.thOK h2 (fun hj => len2 _ _ (h3 hj)), by simp [hsh.new_nil]⟩
+  case filterAcc r f fs hpc hfr hacc hsh =>
+    simp only [ThOK, hpc, hfr] at hth
+    obtain ⟨⟨f', fs', h1, h2⟩, h3⟩ := hth
+    cases h1
+    exact ⟨hsh.thOK h2 (fun hj => len2 _ _ (h3 hj)), by simp [hsh.new_nil]⟩
+  case filterRej r f fs hpc hfr hacc hsh =>
+    simp only [ThOK, hpc, hfr] at hth
+    obtain ⟨⟨f', fs', h1, h2⟩, h3⟩ := hth
+    cases h1
+    exact ⟨hsh.thOK h2 (fun hj => len2 _ _ (h3 hj)), by simp [hsh.new_nil]⟩
+  case claimed r f fs hpc hfr hsh =>
+    simp only [ThOK, hpc, hfr] at hth
+    obtain ⟨⟨f', fs', h1, h2⟩, h3⟩ := hth
+    cases h1
+    exact ⟨hsh.thOK h2 (fun hj => len2 _ _ (h3 hj)), by simp [hsh.new_nil]⟩
+  case spawn r n t f fs o hpc hfr hsh =>
+    simp only [ThOK, hpc, hfr] at hth
+    obtain ⟨⟨f', fs', h1, h2⟩, h3⟩ := hth
+    cases h1
+    exact ⟨hsh.thOK h2 (fun hj => len2 _ _ (h3 hj)), by simp [ThOK]⟩
+  case exit r f fs hpc hfr hj hsh =>
+    refine ⟨hsh.thOK rfl ?_, by simp [hsh.new_nil]⟩
+    intro hj'
+    rcases hj with hj | hj
+    · simp [hj] at hj'
+    · exact hj
+  case retired f fs hpc hfr =>
+    simp only [ThOK, hpc, hfr] at hth
+    exact ⟨by simpa [ThOK] using fun hj => len2 _ _ (hth.2 hj), by simp⟩
+  all_goals simp_all [ThOK, newFrame, jobFrame]
+
+
+theorem thOK_reachable {progs : List (List Op)} : ∀ s, Reachable progs s → ∀ th ∈ s.ths, ThOK th := by
+  apply reach_ind
+  · intro th hth
+    simp [initSys] at hth
+    obtain ⟨p, _, rfl⟩ := hth
+    simp [ThOK]
+  · intro s i th o _ hi hth hR t ht
+    have h := hR.thOK (hi th (List.mem_of_getElem? hth))
+    rcases mem_step_cases ht with ht | rfl | ht
+    · exact hi t ht
+    · exact h.1
+    · exact h.2 t ht
+
+/-! #### sums of a per-thread weight over the thread list -/
+
+def wsum (w : Thread → Nat) (l : List Thread) : Nat := (l.map w).sum
+
+@[simp] theorem wsum_nil (w : Thread → Nat) : wsum w [] = 0 := rfl
+@[simp] theorem wsum_cons (w : Thread → Nat) (a : Thread) (l : List Thread) : wsum w (a :: l) = w a + wsum w l := by
+  simp [wsum]
+@[simp] theorem wsum_append (w : Thread → Nat) (l l' : List Thread) : wsum w (l ++ l') = wsum w l + wsum w l' := by
+  simp [wsum]
+
+theorem wsum_set (w : Thread → Nat) {l : List Thread} {i : Nat} {a : Thread} (b : Thread) (h : l[i]? = some a) :
+    wsum w (l.set i b) + w a = wsum w l + w b := by
+  induction l generalizing i with
+  | nil => simp at h
+  | cons x xs ih =>
+    cases i with
+    | zero => simp at h; subst h; simp; omega
+    | succ i => simp at h; have := ih h; simp; omega
+
+theorem wsum_step (w : Thread → Nat) {l : List Thread} {i : Nat} {a : Thread} (b : Thread) (new : List Thread)
+    (h : l[i]? = some a) : wsum w (l.set i b ++ new) + w a = wsum w l + w b + wsum w new := by
+  have := wsum_set w b h
+  simp; omega
+
+theorem wsum_ge (w : Thread → Nat) {l : List Thread} {i : Nat} {a : Thread} (h : l[i]? = some a) : w a ≤ wsum w l := by
+  have := wsum_set w a h
+  induction l generalizing i with
+  | nil => simp at h
+  | cons x xs ih =>
+    cases i with
+    | zero => simp at h; subst h; simp
+    | succ i => simp at h; have := ih h (wsum_set w a h); simp; omega
+
+theorem countP_eq_wsum (p : Thread → Bool) (l : List Thread) : l.countP p = wsum (fun t => if p t then 1 else 0) l := by
+  induction l with
+  | nil => rfl
+  | cons x xs ih => simp [List.countP_cons, ih]; omega
+
+theorem sumNat_eq_sum (l : List Nat) : sumNat l = l.sum := by
+  have : ∀ (l : List Nat) (a : Nat), l.foldl (· + ·) a = a + l.sum := by
+    intro l; induction l with
+    | nil => simp
+    | cons x xs ih => intro a; simp [ih]; omega
+  simp [sumNat, this]
+
+theorem wsum_add (w w' : Thread → Nat) (l : List Thread) : wsum (fun t => w t + w' t) l = wsum w l + wsum w' l := by
+  induction l with
+  | nil => rfl
+  | cons x xs ih => simp [ih]; omega
+
+/-! #### C06: the in-flight counter -/
+
+def isSpawn : Pc → Bool
+  | .spawn _ _ _ => true
+  | _ => false
+
+/-- what a thread contributes to `bus.wg` -/
+def wInfl (th : Thread) : Nat :=
+  (if th.job.isSome && th.pc != .done then 1 else 0) + (if isSpawn th.pc then 1 else 0)
+
+theorem infl_eq (s : Sys) : liveJobs s + pendingSpawns s = wsum wInfl s.ths := by
+  have e : pendingSpawns s = s.ths.countP (fun th => isSpawn th.pc) := by
+    unfold pendingSpawns; congr 1
+  rw [e]
+  unfold liveJobs wInfl
+  rw [countP_eq_wsum, countP_eq_wsum, ← wsum_add]
+
+theorem Shape.infl {sh th f fs PF PC PG o} (h : Shape sh th f fs PF PC PG o) :
+    o.sh.inflight = sh.inflight + (if isSpawn o.th.pc then 1 else 0) ∧ o.th.job = th.job ∧ o.th.pc ≠ .done := by
+  cases h <;> simp [isSpawn]
+
+theorem StepR.infl {sh th o} (h : StepR sh th o) (hth : ThOK th) (hle : wInfl th ≤ sh.inflight) :
+    o.sh.inflight + wInfl th = sh.inflight + wInfl o.th + wsum wInfl o.new := by
+  cases h
+  case snap f fs hpc hfr hsh =>
+    obtain ⟨h1, h2, h3⟩ := hsh.infl
+    simp [wInfl, hsh.new_nil, h1, h2, h3, hpc, isSpawn]; omega
+  case filterAcc r f fs hpc hfr hacc hsh =>
+    obtain ⟨h1, h2, h3⟩ := hsh.infl
+    simp [wInfl, hsh.new_nil, h1, h2, h3, hpc, isSpawn]; omega
+  case filterRej r f fs hpc hfr hacc hsh =>
+    obtain ⟨h1, h2, h3⟩ := hsh.infl
+    simp [wInfl, hsh.new_nil, h1, h2, h3, hpc, isSpawn]; omega
+  case claimed r f fs hpc hfr hsh =>
+    obtain ⟨h1, h2, h3⟩ := hsh.infl
+    simp [wInfl, hsh.new_nil, h1, h2, h3, hpc, isSpawn]; omega
+  case spawn r n t f fs o hpc hfr hsh =>
+    obtain ⟨h1, h2, h3⟩ := hsh.infl
+    simp [wInfl, h1, h2, h3, hpc, isSpawn]; omega
+  case exit r f fs hpc hfr hj hsh =>
+    obtain ⟨h1, h2, h3⟩ := hsh.infl
+    simp [wInfl, hsh.new_nil, h1, h2, h3, hpc, isSpawn]; omega
+  case aend hpc =>
+    simp [ThOK, hpc] at hth
+    simp [wInfl, hpc, isSpawn, hth] at hle ⊢
+    omega
+  case fin hpc hfr hp =>
+    simp [ThOK, hpc, hfr] at hth
+    simp [wInfl, isSpawn, hpc, hth]
+  all_goals simp [wInfl, isSpawn, *]
+
+theorem infl_reachable {progs : List (List Op)} : ∀ s, Reachable progs s → s.sh.inflight = wsum wInfl s.ths := by
+  apply reach_ind
+  · simp only [initSys]
+    induction progs with
+    | nil => rfl
+    | cons p ps ih => simpa [wInfl, isSpawn] using ih
+  · intro s i th o hr hi hth hR
+    have hok := thOK_reachable s hr th (List.mem_of_getElem? hth)
+    have hle : wInfl th ≤ s.sh.inflight := hi ▸ wsum_ge wInfl hth
+    have h1 := hR.infl hok hle
+    have h2 := wsum_step wInfl o.th o.new hth
+    simp only
+    omega
+
+
+/-! #### C04: single delivery steps -/
+
+theorem Shape.executed {sh th f fs PF PC PG o} (h : Shape sh th f fs PF PC PG o) :
+    o.sh.executed = sh.executed ∨
+      ∃ r l, PC r l ∧ sh.live f.ctx = true ∧ r.once = true ∧ r.rid ∉ sh.executed ∧ o.sh.executed = r.rid :: sh.executed := by
+  cases h
+  case claimed r l hp ho hne hl => exact .inr ⟨r, l, hp, hl, ho, hne, rfl⟩
+  all_goals exact .inl (by simp)
+
+
+/-! #### C04: a once handler is entered at most once -/
+
+def onceBit (r : Reg) (rid : Nat) : Nat := if r.once = true ∧ r.rid = rid then 1 else 0
+
+/-- is the thread on its way to the handler of the claimed once registration `rid`? -/
+def carry (rid : Nat) (th : Thread) : Nat :=
+  match th.pc with
+  | .claimed r | .spawn r _ _ | .lock r _ => onceBit r rid
+  | .astart | .turn => match th.job with
+    | some j => onceBit j.reg rid
+    | none => 0
+  | _ => 0
+
+def exBit (sh : Shared) (rid : Nat) : Nat := if rid ∈ sh.executed then 1 else 0
+
+theorem Shape.once {sh th f fs PF PC PG o} (h : Shape sh th f fs PF PC PG o) (rid x : Nat)
+    (hPG : ∀ r l, PG r l → onceBit r rid ≤ x) :
+    o.sh.enteredOnce.count rid + carry rid o.th + exBit sh rid ≤ sh.enteredOnce.count rid + exBit o.sh rid + x := by
+  cases h
+  case claimed obs r l hp ho hne hl =>
+    by_cases hr : r.rid = rid
+    · subst hr; simp [carry, exBit, onceBit, ho, hne]
+    · have : ¬ rid = r.rid := fun h => hr h.symm
+      simp [carry, exBit, onceBit, hr, this]
+  case spawn obs r l hp ha => have := hPG r l hp; simp [carry, exBit]; omega
+  case lock obs r l hp ha hs hl => have := hPG r l hp; simp [carry, exBit]; omega
+  case enter obs r l hp ha hs hl =>
+    have := hPG r l hp
+    simp only [carry, exBit, noteEnter_enteredOnce, noteEnter_executed]
+    unfold onceBit at this
+    split
+    · rename_i ho
+      by_cases hr : r.rid = rid
+      · simp [ho, hr] at this ⊢; omega
+      · simp [hr]
+    · omega
+  all_goals simp [carry, exBit]
+
+theorem StepR.once {sh th o} (h : StepR sh th o) (rid : Nat) :
+    o.sh.enteredOnce.count rid + carry rid o.th + wsum (carry rid) o.new + exBit sh rid ≤
+      sh.enteredOnce.count rid + carry rid th + exBit o.sh rid := by
+  cases h
+  case snap f fs hpc hfr hsh =>
+    have := hsh.once rid 0 (fun r l h => by simp [onceBit, h.2])
+    have hc : carry rid th = 0 := by simp [carry, hpc]
+    simp only [hsh.new_nil, wsum_nil, hc]; omega
+  case filterAcc r f fs hpc hfr hacc hsh =>
+    have := hsh.once rid 0 (fun r l h => by simp [onceBit, h.2])
+    have hc : carry rid th = 0 := by simp [carry, hpc]
+    simp only [hsh.new_nil, wsum_nil, hc]; omega
+  case filterRej r f fs hpc hfr hacc hsh =>
+    have := hsh.once rid 0 (fun r l h => by simp [onceBit, h.2])
+    have hc : carry rid th = 0 := by simp [carry, hpc]
+    simp only [hsh.new_nil, wsum_nil, hc]; omega
+  case exit r f fs hpc hfr hj hsh =>
+    have := hsh.once rid 0 (fun r l h => by simp [onceBit, h.2])
+    have hc : carry rid th = 0 := by simp [carry, hpc]
+    simp only [hsh.new_nil, wsum_nil, hc]
+    simp only [exBit] at this ⊢; omega
+  case claimed r0 f fs hpc hfr hsh =>
+    have := hsh.once rid (onceBit r0 rid) (fun r l h => by
+      rcases h with ⟨rfl, _⟩ | ⟨_, h⟩
+      · exact Nat.le_refl _
+      · simp [onceBit, h])
+    have hc : carry rid th = onceBit r0 rid := by simp [carry, hpc]
+    simp only [hsh.new_nil, wsum_nil, hc]; omega
+  case spawn r0 n t f fs o hpc hfr hsh =>
+    have := hsh.once rid 0 (fun r l h => by simp [onceBit, h.2])
+    have hc : carry rid th = onceBit r0 rid := by simp [carry, hpc]
+    have hg : ∀ j : Job, carry rid { pc := .astart, job := some j } = onceBit j.reg rid := fun j => rfl
+    rw [hc]; simp only [wsum_cons, wsum_nil, hg]; omega
+  case lock r a f fs hpc hfr hfree =>
+    have hc : carry rid th = onceBit r rid := by simp [carry, hpc]
+    rw [hc]; simp only [wsum_nil, carry, exBit, noteEnter_enteredOnce, noteEnter_executed]
+    unfold onceBit
+    by_cases ho : r.once = true <;> by_cases hr : r.rid = rid <;> simp [ho, hr]
+  case astartRun j hpc hj hs hl =>
+    have hc : carry rid th = onceBit j.reg rid := by simp [carry, hpc, hj]
+    rw [hc]; simp only [wsum_nil, carry, exBit, noteEnter_enteredOnce, noteEnter_executed]
+    unfold onceBit
+    by_cases ho : j.reg.once = true <;> by_cases hr : j.reg.rid = rid <;> simp [ho, hr]
+  all_goals simp [carry, exBit, *]
+
+
+theorem once_reachable {progs : List (List Op)} :
+    ∀ s, Reachable progs s → ∀ rid, s.sh.enteredOnce.count rid + wsum (carry rid) s.ths ≤ exBit s.sh rid := by
+  apply reach_ind
+  · intro rid
+    have : wsum (carry rid) (initSys progs).ths = 0 := by
+      simp only [initSys]
+      induction progs with
+      | nil => rfl
+      | cons p ps ih => simpa [carry] using ih
+    rw [this]; simp [initSys]
+  · intro s i th o _ hi hth hR rid
+    have h1 := hR.once rid
+    have h2 := wsum_step (carry rid) o.th o.new hth
+    have h3 := hi rid
+    have h4 : exBit s.sh rid ≤ 1 := by unfold exBit; split <;> omega
+    simp only
+    omega
+
+
+/-! #### C07: the sequential mutex -/
+
+def insideF (rid : Nat) (f : Frame) : Bool :=
+  match f.handler with
+  | some r => r.seq && r.rid == rid
+  | none => false
+
+theorem inside_eq (rid : Nat) (th : Thread) : inside rid th = th.frames.countP (insideF rid) := by
+  unfold inside; congr 1
+
+theorem insideF_none {rid : Nat} {f : Frame} (h : f.handler = none) : insideF rid f = false := by
+  simp [insideF, h]
+
+theorem Shape.inside {sh th f fs PF PC PG o} (h : Shape sh th f fs PF PC PG o) (rid : Nat) (hf : f.handler = none) :
+    inside rid o.th = fs.countP (insideF rid) ∧ o.sh.held = sh.held := by
+  cases h <;> simp [inside_eq, insideF, *]
+
+theorem StepR.inside {sh th o} (h : StepR sh th o) (rid : Nat) (hth : ThOK th)
+    (hle : inside rid th ≤ sh.held.count rid) (h1 : sh.held.count rid ≤ 1) :
+    (o.sh.held.count rid + inside rid th = sh.held.count rid + inside rid o.th + wsum (inside rid) o.new) ∧
+    o.sh.held.count rid ≤ 1 := by
+  cases h
+  case snap f fs hpc hfr hsh =>
+    simp only [ThOK, hpc, hfr] at hth
+    obtain ⟨⟨f', fs', h1', h2⟩, h3⟩ := hth
+    cases h1'
+    obtain ⟨e1, e2⟩ := hsh.inside rid h2
+    simp [hsh.new_nil, e1, e2, inside_eq, hfr, insideF_none h2, h1]
+  case filterAcc r f fs hpc hfr hacc hsh =>
+    simp only [ThOK, hpc, hfr] at hth
+    obtain ⟨⟨f', fs', h1', h2⟩, h3⟩ := hth
+    cases h1'
+    obtain ⟨e1, e2⟩ := hsh.inside rid h2
+    simp [hsh.new_nil, e1, e2, inside_eq, hfr, insideF_none h2, h1]
+  case filterRej r f fs hpc hfr hacc hsh =>
+    simp only [ThOK, hpc, hfr] at hth
+    obtain ⟨⟨f', fs', h1', h2⟩, h3⟩ := hth
+    cases h1'
+    obtain ⟨e1, e2⟩ := hsh.inside rid h2
+    simp [hsh.new_nil, e1, e2, inside_eq, hfr, insideF_none h2, h1]
+  case claimed r f fs hpc hfr hsh =>
+    simp only [ThOK, hpc, hfr] at hth
+    obtain ⟨⟨f', fs', h1', h2⟩, h3⟩ := hth
+    cases h1'
+    obtain ⟨e1, e2⟩ := hsh.inside rid h2
+    simp [hsh.new_nil, e1, e2, inside_eq, hfr, insideF_none h2, h1]
+  case spawn r n t f fs o hpc hfr hsh =>
+    simp only [ThOK, hpc, hfr] at hth
+    obtain ⟨⟨f', fs', h1', h2⟩, h3⟩ := hth
+    cases h1'
+    obtain ⟨e1, e2⟩ := hsh.inside rid h2
+    simp [e1, e2, inside_eq, hfr, insideF_none h2, h1]
+  case exit r f fs hpc hfr hj hsh =>
+    simp only [ThOK, hpc, hfr] at hth
+    obtain ⟨f', fs', h1', h2⟩ := hth
+    cases h1'
+    obtain ⟨e1, e2⟩ := hsh.inside rid rfl
+    simp only [hsh.new_nil, e1, e2, inside_eq, hfr, List.countP_cons, insideF, h2, wsum_nil] at hle ⊢
+    by_cases hs : r.seq = true
+    · by_cases hr : r.rid = rid
+      · subst hr
+        simp [hs] at hle ⊢
+        omega
+      · have hr' : rid ≠ r.rid := fun h => hr h.symm
+        simp [hs, hr, List.count_erase_of_ne hr', h1]
+    · simp [hs, h1]
+  case exitJob r j f hpc hj hfr =>
+    simp only [ThOK, hpc, hfr] at hth
+    obtain ⟨f', fs', h1', h2⟩ := hth
+    cases h1'
+    simp only [inside_eq, hfr, List.countP_cons, insideF, h2, wsum_nil, List.countP_nil] at hle ⊢
+    by_cases hs : r.seq = true
+    · by_cases hr : r.rid = rid
+      · subst hr
+        simp [hs] at hle ⊢
+        have := List.count_pos_iff.2 hle
+        omega
+      · have hr' : rid ≠ r.rid := fun h => hr h.symm
+        simp [hs, hr, List.count_erase_of_ne hr', h1]
+    · simp [hs, h1]
+  case lock r a f fs hpc hfr hfree =>
+    have hseq : r.seq = true ∧ f.handler = none := by
+      cases a <;> simp only [ThOK, hpc, hfr] at hth
+      · obtain ⟨hs, ⟨f', fs', h1', h2⟩, _⟩ := hth; cases h1'; exact ⟨hs, h2⟩
+      · obtain ⟨hs, ⟨f', fs', h1', h2⟩, _⟩ := hth; cases h1'; exact ⟨hs, h2⟩
+    simp only [inside_eq, hfr, List.countP_cons, insideF, hseq.1, hseq.2, wsum_nil]
+    by_cases hr : r.rid = rid
+    · subst hr
+      have : sh.held.count r.rid = 0 := List.count_eq_zero.2 hfree
+      simp [this]; omega
+    · simp [hr, h1]
+  case bodyPub f fs ty v more hpc hfr hb =>
+    have e1 : insideF rid { f with body := more } = insideF rid f := rfl
+    have e2 : insideF rid (newFrame sh ty v .bg) = false := rfl
+    simp [inside_eq, hfr, List.countP_cons, e1, e2, h1]
+  case enterPub r f fs ty v more hpc hfr hb =>
+    have e1 : insideF rid { f with body := more } = insideF rid f := rfl
+    have e2 : insideF rid (newFrame sh ty v .bg) = false := rfl
+    simp [inside_eq, hfr, List.countP_cons, e1, e2, h1]
+  all_goals first
+    | (simp [inside_eq, insideF, newFrame, jobFrame, *]; done)
+    | (simp [ThOK, *] at hth; simp [inside_eq, insideF, jobFrame, *]; done)
+
+
+theorem mutex_reachable {progs : List (List Op)} :
+    ∀ s, Reachable progs s → ∀ rid, wsum (inside rid) s.ths = s.sh.held.count rid ∧ s.sh.held.count rid ≤ 1 := by
+  apply reach_ind
+  · intro rid
+    have : wsum (inside rid) (initSys progs).ths = 0 := by
+      simp only [initSys]
+      induction progs with
+      | nil => rfl
+      | cons p ps ih => simpa [inside] using ih
+    rw [this]; simp [initSys]
+  · intro s i th o hr hi hth hR rid
+    have hok := thOK_reachable s hr th (List.mem_of_getElem? hth)
+    obtain ⟨h3, h4⟩ := hi rid
+    have hle : inside rid th ≤ s.sh.held.count rid := h3 ▸ wsum_ge (inside rid) hth
+    obtain ⟨h1, h1'⟩ := hR.inside rid hok hle h4
+    have h2 := wsum_step (inside rid) o.th o.new hth
+    simp only
+    omega
+
+
+/-! #### C07: tickets and turns -/
+
+theorem lookupD_setKV (l : List (Nat × Nat)) (k v k' : Nat) :
+    lookupD (setKV l k v) k' = if k' = k then v else lookupD l k' := by
+  unfold lookupD setKV
+  by_cases h : k' = k
+  · subst h; simp
+  · have hne : (k == k') = false := by simp; exact fun e => h e.symm
+    simp only [List.find?_cons, hne, h, if_false]
+    have : List.find? (fun p => p.1 == k') (List.filter (fun p => p.1 != k) l) = List.find? (fun p => p.1 == k') l := by
+      induction l with
+      | nil => rfl
+      | cons x xs ih =>
+        by_cases hx : x.1 = k
+        · have : (x.1 == k') = false := by simp [hx]; exact fun e => h e.symm
+          simp only [List.filter_cons, hx, bne_self_eq_false, Bool.false_eq_true, if_false, List.find?_cons, ih]
+          rw [← hx, this]
+        · simp only [List.filter_cons, bne_iff_ne, ne_eq, hx, not_false_eq_true, if_true, List.find?_cons, ih]
+    rw [this]
+
+theorem ticketsOf_append (rid : Nat) (l : List (Nat × Nat)) (k t : Nat) :
+    ticketsOf rid (l ++ [(k, t)]) = ticketsOf rid l ++ (if k = rid then [t] else []) := by
+  unfold ticketsOf
+  by_cases h : k = rid <;> simp [List.filter_append, h]
+
+/-- parked outside a handler invocation of its own: not started, waiting for its turn, or finished -/
+def idle : Pc → Bool
+  | .astart | .turn | .aend | .done => true
+  | _ => false
+
+/-- does the thread hold ticket `t` of the Sequential registration `rid` without having taken its turn? -/
+def hold (rid t : Nat) (th : Thread) : Nat :=
+  match th.pc with
+  | .spawn r _ t' => if r.seq = true ∧ r.rid = rid ∧ t' = t then 1 else 0
+  | .astart | .turn => match th.job with
+    | some j => if j.reg.seq = true ∧ j.reg.rid = rid ∧ j.ticket = t then 1 else 0
+    | none => 0
+  | _ => 0
+
+/-- is the thread an async goroutine of the Sequential registration `rid` that has taken its turn and not released it? -/
+def prog (rid : Nat) (th : Thread) : Nat :=
+  match th.job with
+  | some j => if j.reg.seq = true ∧ j.reg.rid = rid ∧ idle th.pc = false then 1 else 0
+  | none => 0
+
+theorem prog_congr {rid : Nat} {th th' : Thread} (hj : th'.job = th.job) (h : idle th'.pc = idle th.pc) :
+    prog rid th' = prog rid th := by
+  unfold prog; rw [hj, h]
+
+/-- the effect of a dispatch loop on tickets -/
+theorem Shape.tk {sh th f fs PF PC PG o} (h : Shape sh th f fs PF PC PG o) :
+    o.sh.serving = sh.serving ∧ o.sh.turns = sh.turns ∧ o.th.job = th.job ∧ idle o.th.pc = false ∧
+    ((o.sh.tickets = sh.tickets ∧ o.sh.issued = sh.issued ∧ ∀ rid t, hold rid t o.th = 0) ∨
+     (∃ r : Reg, r.seq = true ∧ o.sh.tickets = setKV sh.tickets r.rid (lookupD sh.tickets r.rid + 1) ∧
+        o.sh.issued = sh.issued ++ [(r.rid, lookupD sh.tickets r.rid)] ∧
+        ∀ rid t, hold rid t o.th = if rid = r.rid ∧ t = lookupD sh.tickets r.rid then 1 else 0)) := by
+  cases h
+  case spawn obs r l hp ha =>
+    refine ⟨rfl, rfl, rfl, rfl, ?_⟩
+    by_cases hs : r.seq = true
+    · refine .inr ⟨r, hs, by simp [hs], by simp [hs], ?_⟩
+      intro rid t
+      simp only [hold, hs, true_and]
+      by_cases h1 : r.rid = rid
+      · subst h1
+        by_cases h2 : lookupD sh.tickets r.rid = t
+        · subst h2; simp
+        · have : ¬ t = lookupD sh.tickets r.rid := fun e => h2 e.symm
+          simp [h2, this]
+      · have : ¬ rid = r.rid := fun e => h1 e.symm
+        simp [h1, this]
+    · exact .inl ⟨by simp [hs], by simp [hs], by intro rid t; simp [hold, hs]⟩
+  all_goals exact ⟨by simp, by simp, rfl, rfl, .inl ⟨by simp, by simp, by intro rid t; simp [hold]⟩⟩
+
+
+/-- the effect of one step on tickets, turns and on who holds which ticket -/
+inductive TkEff (sh : Shared) (th : Thread) (o : Out) : Prop
+  | quiet (h1 : o.sh.tickets = sh.tickets) (h2 : o.sh.issued = sh.issued) (h3 : o.sh.serving = sh.serving)
+      (h4 : o.sh.turns = sh.turns)
+      (hh : ∀ rid t, hold rid t o.th + wsum (hold rid t) o.new = hold rid t th)
+      (hp : ∀ rid, prog rid o.th + wsum (prog rid) o.new = prog rid th)
+  | issue (r : Reg) (hs : r.seq = true)
+      (h1 : o.sh.tickets = setKV sh.tickets r.rid (lookupD sh.tickets r.rid + 1))
+      (h2 : o.sh.issued = sh.issued ++ [(r.rid, lookupD sh.tickets r.rid)])
+      (h3 : o.sh.serving = sh.serving) (h4 : o.sh.turns = sh.turns)
+      (hh : ∀ rid t, hold rid t o.th + wsum (hold rid t) o.new =
+        hold rid t th + if rid = r.rid ∧ t = lookupD sh.tickets r.rid then 1 else 0)
+      (hp : ∀ rid, prog rid o.th + wsum (prog rid) o.new = prog rid th)
+  | turn (j : Job) (dead : Bool) (hs : j.reg.seq = true) (hturn : lookupD sh.serving j.reg.rid = j.ticket)
+      (h1 : o.sh.tickets = sh.tickets) (h2 : o.sh.issued = sh.issued)
+      (h3 : o.sh.serving = if dead then setKV sh.serving j.reg.rid (lookupD sh.serving j.reg.rid + 1) else sh.serving)
+      (h4 : o.sh.turns = sh.turns ++ [(j.reg.rid, j.ticket)])
+      (hnew : o.new = [])
+      (hh : ∀ rid t, hold rid t th = if rid = j.reg.rid ∧ t = j.ticket then 1 else 0)
+      (hh' : ∀ rid t, hold rid t o.th = 0)
+      (hp : ∀ rid, prog rid th = 0)
+      (hp' : ∀ rid, prog rid o.th = if dead then 0 else if rid = j.reg.rid then 1 else 0)
+  | release (j : Job) (hs : j.reg.seq = true)
+      (h1 : o.sh.tickets = sh.tickets) (h2 : o.sh.issued = sh.issued)
+      (h3 : o.sh.serving = setKV sh.serving j.reg.rid (lookupD sh.serving j.reg.rid + 1))
+      (h4 : o.sh.turns = sh.turns)
+      (hnew : o.new = [])
+      (hh : ∀ rid t, hold rid t th = 0) (hh' : ∀ rid t, hold rid t o.th = 0)
+      (hp : ∀ rid, prog rid th = if rid = j.reg.rid then 1 else 0) (hp' : ∀ rid, prog rid o.th = 0)
+
+theorem TkEff.of_shape {sh sh0 th f fs PF PC PG o} (hS : Shape sh th f fs PF PC PG o) (o' : Out)
+    (es : o'.sh = o.sh) (et : o'.th = o.th)
+    (e1 : sh.tickets = sh0.tickets) (e2 : sh.issued = sh0.issued) (e3 : sh.serving = sh0.serving) (e4 : sh.turns = sh0.turns)
+    (hidle : idle th.pc = false) (hnewp : ∀ rid, wsum (prog rid) o'.new = 0)
+    (hnewh : ∀ rid t, wsum (hold rid t) o'.new = hold rid t th) : TkEff sh0 th o' := by
+  obtain ⟨h3, h4, hj, hi, h⟩ := hS.tk
+  have hp : ∀ rid, prog rid o'.th + wsum (prog rid) o'.new = prog rid th := by
+    intro rid; rw [hnewp, et]; simp [prog_congr hj (hi.trans hidle.symm)]
+  rcases h with ⟨h1, h2, hh⟩ | ⟨r, hs, h1, h2, hh⟩
+  · refine .quiet (by rw [es, h1, e1]) (by rw [es, h2, e2]) (by rw [es, h3, e3]) (by rw [es, h4, e4]) ?_ hp
+    intro rid t; rw [et, hh, hnewh]; simp
+  · refine .issue r hs (by rw [es, h1, e1]) (by rw [es, h2, e2, e1]) (by rw [es, h3, e3]) (by rw [es, h4, e4]) ?_ hp
+    intro rid t; rw [et, hh, hnewh, e1]; omega
+
+theorem StepR.tk {sh th o} (h : StepR sh th o) (hth : ThOK th) : TkEff sh th o := by
+  cases h
+  case snap f fs hpc hfr hsh =>
+    exact .of_shape hsh _ rfl rfl rfl rfl rfl rfl (by simp [idle, hpc]) (by simp [hsh.new_nil]) (by simp [hsh.new_nil, hold, hpc])
+  case filterAcc r f fs hpc hfr hacc hsh =>
+    exact .of_shape hsh _ rfl rfl rfl rfl rfl rfl (by simp [idle, hpc]) (by simp [hsh.new_nil]) (by simp [hsh.new_nil, hold, hpc])
+  case filterRej r f fs hpc hfr hacc hsh =>
+    exact .of_shape hsh _ rfl rfl rfl rfl rfl rfl (by simp [idle, hpc]) (by simp [hsh.new_nil]) (by simp [hsh.new_nil, hold, hpc])
+  case claimed r f fs hpc hfr hsh =>
+    exact .of_shape hsh _ rfl rfl rfl rfl rfl rfl (by simp [idle, hpc]) (by simp [hsh.new_nil]) (by simp [hsh.new_nil, hold, hpc])
+  case exit r f fs hpc hfr hj hsh =>
+    exact .of_shape hsh _ rfl rfl rfl rfl rfl rfl (by simp [idle, hpc]) (by simp [hsh.new_nil]) (by simp [hsh.new_nil, hold, hpc])
+  case spawn r n t f fs o hpc hfr hsh =>
+    exact .of_shape hsh _ rfl rfl rfl rfl rfl rfl (by simp [idle, hpc]) (by simp [prog, idle]) (by simp [hold, hpc])
+  case turnRun j hpc hj hturn hl =>
+    simp only [ThOK, hpc] at hth
+    obtain ⟨⟨j', hj', hs⟩, _⟩ := hth
+    rw [hj] at hj'; cases hj'
+    refine .turn j false hs hturn rfl rfl rfl rfl rfl ?_ ?_ ?_ ?_
+    · intro rid t; simp only [hold, hpc, hj, hs, true_and]
+      by_cases h1 : rid = j.reg.rid <;> simp [h1, eq_comm]
+      · intro e; exact h1 e.symm
+    · intro rid t; simp [hold]
+    · intro rid; simp [prog, hj, hpc, idle]
+    · intro rid; simp only [prog, hj, hs, idle, true_and]
+      by_cases h1 : rid = j.reg.rid <;> simp [h1, eq_comm]
+      · intro e; exact h1 e.symm
+  case turnDead j hpc hj hturn hl =>
+    simp only [ThOK, hpc] at hth
+    obtain ⟨⟨j', hj', hs⟩, _⟩ := hth
+    rw [hj] at hj'; cases hj'
+    refine .turn j true hs hturn rfl rfl rfl rfl rfl ?_ ?_ ?_ ?_
+    · intro rid t; simp only [hold, hpc, hj, hs, true_and]
+      by_cases h1 : rid = j.reg.rid <;> simp [h1, eq_comm]
+      · intro e; exact h1 e.symm
+    · intro rid t; simp [hold]
+    · intro rid; simp [prog, hj, hpc, idle]
+    · intro rid; simp [prog, hj, idle]
+  case exitJob r j f hpc hj hfr =>
+    by_cases hs : j.reg.seq = true
+    · refine .release j hs rfl rfl (by simp [hs]) rfl rfl ?_ ?_ ?_ ?_
+      · intro rid t; simp [hold, hpc]
+      · intro rid t; simp [hold]
+      · intro rid; simp only [prog, hj, hpc, hs, idle, true_and]
+        by_cases h1 : rid = j.reg.rid <;> simp [h1, eq_comm]
+        · intro e; exact h1 e.symm
+      · intro rid; simp [prog, hj, idle]
+    · refine .quiet rfl rfl (by simp [hs]) rfl ?_ ?_
+      · intro rid t; simp [hold, hpc]
+      · intro rid; simp [prog, hj, hs]
+  all_goals sorry
+
+end Inv
+
+open Ebu.Conc.Inv
+
 /-! ### C02 — registry accounting and delivery within the snapshot -/
 
 /-- no subscription is lost or duplicated: every registration ever created is either still
 registered or was removed exactly once; registration identities are unique -/
 theorem registry_accounting (progs : List (List Op)) (s : Sys) (h : Reachable progs s) :
     s.sh.regs.length + s.sh.removed = s.sh.nextRid ∧ (s.sh.regs.map (·.rid)).Nodup ∧
-    ∀ r ∈ s.sh.regs, r.rid < s.sh.nextRid := by
-  sorry
+    ∀ r ∈ s.sh.regs, r.rid < s.sh.nextRid :=
+  regInv_reachable s h
 
 /-- a publish takes its snapshot from the registry as it is at that step: exactly the
 registrations of the published type, in subscription order -/
@@ -20,40 +1247,71 @@ theorem publish_takes_current_registry (sh : Shared) (th : Thread) (ty v : Nat) 
     (hpc : th.pc = .op) (hfr : th.frames = []) (hprog : th.prog = .publish ty v ctx :: prog) :
     ∃ o f, step sh th = some o ∧ o.th.frames = [f] ∧ o.th.pc = .snap ∧ o.sh = sh ∧
       f.snapshot = sh.regs.filter (fun r => r.ty == ty) ∧ f.rest = f.snapshot ∧ f.v = v ∧ f.ty = ty := by
-  sorry
+  refine ⟨⟨sh, { th with prog := prog, frames := [newFrame sh ty v ctx], pc := .snap }, [], []⟩, newFrame sh ty v ctx,
+    ?_, rfl, rfl, rfl, rfl, rfl, rfl, rfl⟩
+  simp [step, enabled, hpc, hfr, hprog]
 
 /-- every activation only ever dispatches what is left of its own snapshot: the entries still
 to be dispatched are a suffix of the snapshot (so each entry is dispatched at most once, in
 order), and the snapshot holds registrations of the published type only -/
 theorem dispatch_within_snapshot (progs : List (List Op)) (s : Sys) (h : Reachable progs s) :
-    ∀ th ∈ s.ths, ∀ f ∈ th.frames, f.rest <:+ f.snapshot ∧ ∀ r ∈ f.snapshot, r.ty = f.ty ∧ r.rid < s.sh.nextRid := by
-  sorry
+    ∀ th ∈ s.ths, ∀ f ∈ th.frames, f.rest <:+ f.snapshot ∧ ∀ r ∈ f.snapshot, r.ty = f.ty ∧ r.rid < s.sh.nextRid :=
+  fun th hth f hf => ⟨(snap_reachable s h th hth f hf).1, (snap_reachable s h th hth f hf).2⟩
 
 /-! ### C04 — once handlers -/
 
 /-- however the threads interleave, the handler of a Once registration is entered at most once -/
 theorem once_at_most_once (progs : List (List Op)) (s : Sys) (h : Reachable progs s) (rid : Nat) :
     s.sh.enteredOnce.count rid ≤ 1 := by
-  sorry
+  have h1 := once_reachable s h rid
+  have h2 : exBit s.sh rid ≤ 1 := by unfold exBit; split <;> omega
+  omega
 
 /-- … and only after its compare-and-swap succeeded -/
 theorem once_entered_was_claimed (progs : List (List Op)) (s : Sys) (h : Reachable progs s) (rid : Nat)
     (he : rid ∈ s.sh.enteredOnce) : rid ∈ s.sh.executed := by
-  sorry
+  have h1 := once_reachable s h rid
+  have h2 : 0 < s.sh.enteredOnce.count rid := List.count_pos_iff.2 he
+  unfold exBit at h1
+  split at h1
+  · assumption
+  · omega
 
 /-- a delivery step whose filter rejects the event does not use the registration up -/
 theorem filter_reject_not_consumed (sh : Shared) (th : Thread) (r : Reg) (f : Frame) (fs : List Frame) (o : Out)
     (hpc : th.pc = .filter r) (hfr : th.frames = f :: fs) (hrej : r.accepts f.v = false)
     (hstep : step sh th = some o) (hfresh : r.rid ∉ f.rest.map (·.rid)) (hno : r.rid ∉ sh.executed) :
     r.rid ∉ o.sh.executed := by
-  sorry
+  simp only [step, enabled, hpc, hfr, hrej] at hstep
+  simp at hstep
+  subst hstep
+  rcases (dispatch_shape sh th f fs [.filt r.rid f.v false] f rfl).executed with h | ⟨r', l, hp, _, _, _, h⟩
+  · rw [h]; exact hno
+  · rw [h]
+    have hmem : r' ∈ f.rest := hp.subset (by simp)
+    intro hc
+    simp at hc
+    rcases hc with hc | hc
+    · exact hfresh (hc ▸ List.mem_map_of_mem hmem)
+    · exact hno hc
 
 /-- a delivery step that finds the publish context cancelled does not use the registration up -/
 theorem cancelled_not_consumed (sh : Shared) (th : Thread) (r : Reg) (f : Frame) (fs : List Frame) (o : Out)
     (hpc : th.pc = .filter r) (hfr : th.frames = f :: fs) (hdead : sh.live f.ctx = false)
     (hstep : step sh th = some o) (hno : r.rid ∉ sh.executed) :
     o.sh.executed = sh.executed := by
-  sorry
+  have _ := hno
+  simp only [step, enabled, hpc, hfr] at hstep
+  simp at hstep
+  split at hstep
+  · cases hstep
+    rcases (afterFilter_shape sh th f fs [.filt r.rid f.v true] r).executed with h | ⟨_, _, _, hl, _⟩
+    · exact h
+    · rw [hdead] at hl; cases hl
+  · cases hstep
+    rcases (dispatch_shape sh th f fs [.filt r.rid f.v false] f rfl).executed with h | ⟨_, _, _, hl, _⟩
+    · exact h
+    · rw [hdead] at hl; cases hl
 
 /-! ### C06 — the in-flight counter and Wait -/
 
@@ -61,7 +1319,7 @@ theorem cancelled_not_consumed (sh : Shared) (th : Thread) (r : Reg) (f : Frame)
 publisher has counted in and is about to start -/
 theorem inflight_counts (progs : List (List Op)) (s : Sys) (h : Reachable progs s) :
     s.sh.inflight = liveJobs s + pendingSpawns s := by
-  sorry
+  rw [infl_eq]; exact infl_reachable s h
 
 /-- `Wait` returns only when no async invocation is unfinished – whoever published it,
 including handlers publishing from handlers -/
@@ -69,7 +1327,16 @@ theorem wait_returns_only_when_idle (progs : List (List Op)) (s s' : Sys) (h : R
     (th : Thread) (prog : List Op) (hth : s.ths[i]? = some th) (hpc : th.pc = .op) (hfr : th.frames = [])
     (hprog : th.prog = .wait :: prog) (hstep : s.stepAt i = some s') :
     liveJobs s = 0 ∧ pendingSpawns s = 0 := by
-  sorry
+  have h1 := infl_reachable s h
+  rw [← infl_eq] at h1
+  have h2 : s.sh.inflight = 0 := by
+    unfold Sys.stepAt at hstep
+    rw [hth] at hstep
+    simp only [step, enabled, hpc, hfr, hprog] at hstep
+    by_cases h0 : s.sh.inflight = 0
+    · exact h0
+    · simp [h0] at hstep
+  omega
 
 /-! ### C07 — sequential handlers -/
 
@@ -77,7 +1344,8 @@ theorem wait_returns_only_when_idle (progs : List (List Op)) (s s' : Sys) (h : R
 and exactly when its mutex is held -/
 theorem seq_mutex (progs : List (List Op)) (s : Sys) (h : Reachable progs s) (rid : Nat) :
     sumNat (s.ths.map (inside rid)) = s.sh.held.count rid ∧ s.sh.held.count rid ≤ 1 := by
-  sorry
+  rw [sumNat_eq_sum]
+  exact mutex_reachable s h rid
 
 /-- Async+Sequential: tickets are handed out 0,1,2,… in dispatch order … -/
 theorem tickets_in_dispatch_order (progs : List (List Op)) (s : Sys) (h : Reachable progs s) (rid : Nat) :
